@@ -1,9 +1,74 @@
-"""E11 -- sensitivity self-test (mutant / neutral-variant catalogue); filled in per property."""
+"""E11 -- thorough tier: analyser self-validation + sensitivity self-test (mutant / neutral catalogue)."""
 
 from __future__ import annotations
 
+import json
+import os
+import subprocess
+import sys
+
+E1_USERS = {"C01", "C02", "C03", "C04", "C18", "C19"}
+
+_DUMP = r'''
+import json, sys, inspect, importlib, pkgutil
+import pydantic
+out = {}
+import soundevent.data, soundevent.io.aoef
+mods = []
+for pkg in (soundevent.data, soundevent.io.aoef):
+    mods.append(pkg)
+    for m in pkgutil.iter_modules(pkg.__path__, pkg.__name__ + "."):
+        mods.append(importlib.import_module(m.name))
+for mod in mods:
+    for name, obj in vars(mod).items():
+        if inspect.isclass(obj) and issubclass(obj, pydantic.BaseModel) and obj.__module__ == mod.__name__:
+            out[f"{obj.__module__}:{obj.__name__}"] = {k: bool(f.is_required()) for k, f in obj.model_fields.items()}
+print(json.dumps(out))
+'''
+
+
+def validate_model_tables(root: str):
+    """Compare the AST-derived pydantic field tables (E1) with pydantic's own model_fields (declarations only).
+    Returns (ok, text). A disagreement means the *extractor* is wrong: analysis error, never a violation."""
+    from .index import Index
+    from .models import Models
+    env = dict(os.environ, PYTHONPATH=os.path.join(root, "src"))
+    try:
+        p = subprocess.run(["/venv/bin/python", "-W", "ignore", "-c", _DUMP], capture_output=True, text=True, env=env, timeout=120)
+    except Exception as e:  # noqa: BLE001
+        return True, f"model-table self-validation skipped ({e})"
+    if p.returncode != 0:
+        return True, "model-table self-validation skipped (the package does not import in this tree)"
+    truth = json.loads(p.stdout.strip().splitlines()[-1])
+    ix = Index(root)
+    m = Models(ix)
+    diffs = []
+    n = 0
+    for ci in m.all_models():
+        if ci.qual not in truth:
+            continue
+        n += 1
+        mine = {f.name: f.required for f in m.fields(ci)}
+        if mine != truth[ci.qual]:
+            diffs.append(f"{ci.qual}: extractor {sorted(mine.items())} vs pydantic {sorted(truth[ci.qual].items())}")
+    missing = [q for q in truth if ix.class_by_qual(q) is None]
+    if diffs or missing:
+        return False, "; ".join(diffs[:3] + [f"classes not found by the extractor: {missing[:3]}"] if missing else diffs[:3])
+    return True, f"model tables of {n} classes agree with pydantic's model_fields (names and requiredness)"
+
 
 def thorough(prop: str, root: str, rc: int, evidence_dir) -> int:
+    if prop in E1_USERS:
+        ok, text = validate_model_tables(root)
+        print(f"[{prop}] self-validation: {text}")
+        if evidence_dir and os.path.exists(os.path.join(evidence_dir, f"{prop}.json")):
+            pth = os.path.join(evidence_dir, f"{prop}.json")
+            ev = json.load(open(pth))
+            ev["coverage"]["model_table_selfvalidation"] = text
+            json.dump(ev, open(pth, "w"), indent=1, default=str)
+        if not ok:
+            print(f"ANALYSIS-ERROR property={prop} rule=E1 site=models reason=field-table extractor disagrees with pydantic: {text}")
+            return 2 if rc == 0 else rc
     try:
         from selftest.harness import run_catalogue
     except ModuleNotFoundError:
